@@ -42,6 +42,8 @@ type Sub struct {
 	FuzzSecs int    `json:"fuzzsecs"` // native fuzz duration
 	Steps    int    `json:"steps"`    // -rapid.steps
 	NoRapid  bool   `json:"norapid"`  // plain test: VERIF_N carries the count
+	CrashIsViolation bool `json:"crash_is_violation"` // a crash of the test process while a case runs is a verdict (the case is in current.<shard>.json)
+	MemLimitMB int  `json:"mem_limit_mb"` // ulimit -v for the job
 }
 
 type Prop struct {
@@ -463,10 +465,17 @@ func runJob(ctx context.Context, p *Prop, j *job, tier string, seed int64, work 
 			"-test.fuzzcachedir", filepath.Join(jdir, "fuzzcache"), "-test.timeout", (timeout + time.Minute).String()}
 	}
 	var cmd *exec.Cmd
+	limit := ""
+	if j.sub.MemLimitMB > 0 {
+		limit = fmt.Sprintf("ulimit -v %d; ", j.sub.MemLimitMB*1024)
+	}
 	if netns {
-		sh := `ip link set lo up; exec "$@"`
+		sh := limit + `ip link set lo up; exec "$@"`
 		a := append([]string{"-n", "sh", "-c", sh, "sh", j.bin}, args...)
 		cmd = exec.CommandContext(ctx, "unshare", a...)
+	} else if limit != "" {
+		a := append([]string{"-c", limit + `exec "$@"`, "sh", j.bin}, args...)
+		cmd = exec.CommandContext(ctx, "sh", a...)
 	} else {
 		cmd = exec.CommandContext(ctx, j.bin, args...)
 	}
@@ -499,6 +508,19 @@ func runJob(ctx context.Context, p *Prop, j *job, tier string, seed int64, work 
 			fmt.Fprintf(&j.out, "\nvcheck: %v\n", err)
 		}
 	}
+	if !j.fuzz && !j.timed && j.code != 0 && j.code != 1 && j.sub.CrashIsViolation || (!j.fuzz && j.sub.CrashIsViolation && j.code == 1 && crashed(j.out.String())) {
+		cur := filepath.Join(work, fmt.Sprintf("current.%d.json", j.idx))
+		if b, err := os.ReadFile(cur); err == nil {
+			var rf map[string]interface{}
+			if json.Unmarshal(b, &rf) == nil {
+				rf["error"] = "the test process crashed while running this case:\n" + tail(j.out.String(), 25)
+				out, _ := json.MarshalIndent(rf, "", " ")
+				os.MkdirAll(filepath.Join(work, "replays"), 0o755)
+				os.WriteFile(filepath.Join(work, "replays", fmt.Sprintf("%s.crash%d.json", j.sub.Name, j.idx)), out, 0o644)
+				j.code = 1
+			}
+		}
+	}
 	if j.fuzz && j.code != 0 {
 		// a crasher found by the native fuzzer: the saved input is the reproducible unit
 		files, _ := filepath.Glob(filepath.Join(jdir, "testdata", "fuzz", j.sub.Fuzz, "*"))
@@ -517,6 +539,11 @@ func runJob(ctx context.Context, p *Prop, j *job, tier string, seed int64, work 
 	if os.Getenv("VERIF_VERBOSE") != "" {
 		fmt.Printf("=== job %d %s#%d code=%d dur=%s\n%s\n", j.idx, j.sub.Name, j.shard, j.code, j.dur.Round(time.Millisecond), tail(j.out.String(), 30))
 	}
+}
+
+// crashed: did the process die from an unrecovered panic or a fatal runtime error?
+func crashed(out string) bool {
+	return strings.Contains(out, "\npanic: ") || strings.HasPrefix(out, "panic: ") || strings.Contains(out, "fatal error: ") || strings.Contains(out, "\ngoroutine ") && strings.Contains(out, "[running]")
 }
 
 func copyDir(src, dst string) {
